@@ -64,6 +64,7 @@ class C20(Check):
         "how a patched endpoint ANSWERS a notification is outside the statement (not judged); that the notification is recorded and takes its turn in the rotation is judged; on endpoints without patches notifications are passed through with the same arguments (text, flag, transport keyword arguments) / refused",
         "a user callback that raises propagates out of the patched transport; the call is still recorded and the patch rotation consumed",
         "replace / remove are only issued for existing patches / indices",
+        "a second PjRpcMocker patching another client class is alive during every case (with patches for the same endpoints): mockers are independent objects",
     ]
     trusted_base = ['deque model in checks/c20.py']
     required_classes = ['op/add', 'op/replace', 'op/remove-method', 'op/remove-endpoint', 'op/reset', 'op/call', 'op/batch', 'patch/result',
@@ -235,6 +236,13 @@ class C20(Check):
             except BaseException as e:  # noqa
                 return None, e
 
+        # a second mocker of the same process, patching ANOTHER client class (the aiohttp next to the requests mocker in one test): it has a
+        # patch for the very endpoint / method this case uses - which must mean nothing to the mocker under test, and vice versa
+        other_cls = mocktargets.SyncTarget if is_async else mocktargets.AsyncTarget
+        decoy = PjRpcMocker(target=f'pbt.mocktargets.{other_cls.__name__}._request', passthrough=False)
+        decoy.add(ENDPOINTS[0], METHODS[0], result='answer-of-the-other-mocker')
+        decoy.add(ENDPOINTS[1], METHODS[1], result='answer-of-the-other-mocker')
+        decoy.start()
         mocker.start()
         try:
             for op in spec['ops']:
@@ -392,6 +400,8 @@ class C20(Check):
                             cmp_response(e, g, f"batch element {n} of {text}")
                 if discs:
                     break
+            if not discs and decoy.calls:
+                discs.append(Disc("C20/calls-recorded-by-another-mocker", f"a second mocker that was never called reports {jg.short({k: list(v) for k, v in decoy.calls.items()}, 200)} | {where}"))
             # recorded calls
             if not discs:
                 got_calls = {}
@@ -408,6 +418,7 @@ class C20(Check):
                                                             f"{jg.short({str(k2): v for k2, v in want.items()}, 400)} | {where}"))
         finally:
             mocker.stop()
+            decoy.stop()
         nontrivial = ('round-robin>=2' in classes and 'once' in classes) or mutated_between_calls or 'op/batch' in classes
         return Outcome(discs, nontrivial, sorted(classes), evaluations=max(evaluations, 1))
 
